@@ -41,7 +41,7 @@ def _synthetic_modules(flt):
 
 
 def work_items(tier, flt):  # noqa: F811
-    items = _hist_work_items(tier, flt)
+    items = _hist_work_items(tier, flt) + mp.bfs_work_items(PROPERTY, "predict", tier, flt)
     if not (flt and flt.get("entry")):
         for env, mod in _synthetic_modules(flt):
             k = getattr(mod, "SYNTHETIC_SHARDS", {"quick": 1, "thorough": 2})[tier]
@@ -51,6 +51,8 @@ def work_items(tier, flt):  # noqa: F811
 
 
 def run_item(item, seed, tier):  # noqa: F811
+    if item.get("kind") == "bfs":
+        return mp.bfs_run_item(PROPERTY, item, seed, mp.C09Mon, "predict")
     if item.get("kind") != "synthetic":
         return _hist_run_item(item, seed, tier)
     ctx = Ctx(PROPERTY, item)
